@@ -290,3 +290,53 @@ Theorem C09_structured_multiple_constant : forall F K (o : fops F) (fk : fieldK 
             forall c0, idx l 0 = Some c0 -> plead fk (map den r) = kinv fk (den c0).
 Proof. exact (@structured_multiple_constant). Qed.
 Print Assumptions C09_structured_multiple_constant.
+
+(* ---------------------------------------------------------------- Polynomial<XFieldElement>: hypotheses DISCHARGED
+   k3_field = Fp[X]/(X^3 - X + 1) (proofs/XFieldOk.v: xfe_field_ok, C01_xfe_field_ok), canon3 / denX = representation
+   invariant / denotation of a triple of Montgomery words; the C06 hypotheses on ntt_x / intt_x are the theorems of
+   proofs/XFieldNtt.v (C06_ntt_x_field_is_dft, C06_intt_x_field_is_idft), transform lengths up to 2^31. *)
+From TF Require Import XFieldProofs XFieldOk XFieldNtt XFieldPoly.
+Example C09_ex_xfield : field_ok xfe_ops k3_field canon3 denX.
+Proof. exact xfe_field_ok. Qed.
+Theorem C09_xfe_divide_spec : forall a d, Forall canon3 a -> Forall canon3 d -> ~ pzero k3_field (map denX d) ->
+  exists q r, pdiv_divide xfe_ops a d = Some (q, r) /\ pdiv_div xfe_ops a d = Some q /\ pdiv_rem xfe_ops a d = Some r /\
+              pdiv_reduce_long_division xfe_ops a d = Some r /\ Forall canon3 q /\ Forall canon3 r /\
+              is_divmod k3_field (map denX a) (map denX d) (map denX q) (map denX r).
+Proof. exact xfe_divide_spec. Qed.
+Print Assumptions C09_xfe_divide_spec.
+Theorem C09_xfe_divide_panics_iff : forall a d, Forall canon3 a -> Forall canon3 d ->
+  (pdiv_naive_divide xfe_ops a d = None <-> pzero k3_field (map denX d)).
+Proof. exact xfe_divide_panics_iff. Qed.
+Print Assumptions C09_xfe_divide_panics_iff.
+Theorem C09_xfe_xgcd_spec : forall x y, Forall canon3 x -> Forall canon3 y ->
+  exists g a b, pdiv_xgcd xfe_ops x y = PdOk (g, a, b) /\ Forall canon3 g /\ Forall canon3 a /\ Forall canon3 b /\
+                peq k3_field (map denX g) (padd k3_field (pmul k3_field (map denX a) (map denX x)) (pmul k3_field (map denX b) (map denX y))) /\
+                (forall c, pdvd k3_field c (map denX g) <-> pdvd k3_field c (map denX x) /\ pdvd k3_field c (map denX y)) /\
+                (pzero k3_field (map denX g) \/ plead k3_field (map denX g) = k1 k3_field).
+Proof. exact xfe_xgcd_spec. Qed.
+Print Assumptions C09_xfe_xgcd_spec.
+Theorem C09_xfe_fpsi_minimal_spec : forall c0 cs1 n, canon3 c0 -> Forall canon3 cs1 -> denX c0 <> k0 k3_field -> 0 <= n ->
+  exists g, pdiv_fpsi_minimal xfe_ops (c0 :: cs1) n = Some g /\ Forall canon3 g /\ length g = S (Z.to_nat n) /\
+            pmodx k3_field (S (Z.to_nat n)) (pmul k3_field (map denX (c0 :: cs1)) (map denX g)) (pone k3_field).
+Proof. exact xfe_fpsi_minimal_spec. Qed.
+Print Assumptions C09_xfe_fpsi_minimal_spec.
+Theorem C09_xfe_structured_multiple_spec : forall l n, Forall canon3 l -> 1 <= poly_degree xfe_ops l ->
+  poly_degree xfe_ops l <= n -> n + 1 <= 2 ^ 31 ->
+  exists r, pdiv_structured_multiple_of_degree xfe_ops ntt_x intt_x l n = Some r /\ Forall canon3 r /\
+            pdvd k3_field (map denX l) (map denX r) /\ pdeg k3_field (map denX r) = n /\ plead k3_field (map denX r) = k1 k3_field /\
+            (forall i, (Z.to_nat (poly_degree xfe_ops l) <= i < Z.to_nat n)%nat -> coeff k3_field (map denX r) i = k0 k3_field) /\
+            zlen r = n + 1.
+Proof. exact xfe_structured_multiple_spec. Qed.
+Print Assumptions C09_xfe_structured_multiple_spec.
+Theorem C09_xfe_reduce_spec : forall a m, Forall canon3 a -> Forall canon3 m -> ~ pzero k3_field (map denX m) ->
+  next_pow2 (Z.max FAST_REDUCE_CUTOFF_THRESHOLD (poly_degree xfe_ops m * 2)) + 1 <= 2 ^ 31 ->
+  3 * poly_degree xfe_ops m + 2 <= 2 ^ 31 ->
+  exists r, pdiv_reduce xfe_ops ntt_x intt_x a m = Some r /\ Forall canon3 r /\ is_rem k3_field (map denX a) (map denX m) (map denX r).
+Proof. exact xfe_reduce_spec. Qed.
+Print Assumptions C09_xfe_reduce_spec.
+Theorem C09_xfe_fast_reduce_spec : forall a m, Forall canon3 a -> Forall canon3 m -> ~ pzero k3_field (map denX m) ->
+  next_pow2 (Z.max FAST_REDUCE_CUTOFF_THRESHOLD (poly_degree xfe_ops m * 2)) + 1 <= 2 ^ 31 ->
+  3 * poly_degree xfe_ops m + 2 <= 2 ^ 31 ->
+  exists r, pdiv_fast_reduce xfe_ops ntt_x intt_x a m = Some r /\ Forall canon3 r /\ is_rem k3_field (map denX a) (map denX m) (map denX r).
+Proof. exact xfe_fast_reduce_spec. Qed.
+Print Assumptions C09_xfe_fast_reduce_spec.
